@@ -34,8 +34,8 @@ for pid in ids:
             m = json.load(open(os.path.join(src, 'meta.json')))
         except Exception:
             m = {}
-        m['property'] = P
-        m['origin'] = 'written by an independent sub-agent that saw only the property text and a scratch worktree (round 2)'
+        m['property'] = P; m['round'] = int(os.environ.get('ROUND', 0))
+        m['origin'] = 'written by an independent sub-agent that saw only the property text and a scratch worktree (round %s)' % os.environ.get('ROUND', '?')
         m['verified_by_me'] = {'how': 'tools/evalseeds.py (tools/mutate.py --patch patch.diff --demo demo.py --tests %s on a scratch copy of /repo HEAD)' % P,
                                'suite_with_change': suite[24:], 'demo_clean': clean, 'demo_changed': changed[:120]}
         m['check_result'] = verdict + ((' [' + sig[:200] + ']') if sig else '')
